@@ -32,6 +32,7 @@ class Controller:
         self.status = "following"           # following | infeasible | diverged | completed
         self.grant_timeout = grant_timeout
         self.reordered = False
+        self.tls = threading.local()        # .mute > 0: accesses of this thread are performed but not logged
 
     # ---- naming
     def key_name(self, key: Any) -> str:
@@ -49,7 +50,7 @@ class Controller:
     # ---- called by worker threads around every shared access
     def access(self, op: str, key: str, perform: Callable[[], Any], val_of: Callable[[Any], str]) -> Any:
         t = self.me()
-        if t is None:
+        if t is None or getattr(self.tls, "mute", 0):
             return perform()
         if not self.free:
             self._wait_for_grant(t, op, key)
@@ -66,7 +67,7 @@ class Controller:
 
     def event(self, op: str, key: str = "", val: str = ""):
         t = self.me()
-        if t is None:
+        if t is None or getattr(self.tls, "mute", 0):
             return
         with self.mutex:
             self.seq += 1
@@ -210,6 +211,13 @@ class Installed:
         inner = self.saved["is_recursive"].__wrapped__   # the uncached function
 
         def is_recursive(tp, conversion, default_conversion, checker_cls):
+            if getattr(ctl, "only_checker", None) not in (None, checker_cls.__name__):
+                # the model describes ONE cache: analyses of the other checker run unlogged
+                ctl.tls.mute = getattr(ctl.tls, "mute", 0) + 1
+                try:
+                    return inner(tp, conversion, default_conversion, checker_cls)
+                finally:
+                    ctl.tls.mute -= 1
             ctl.event("call", ctl.key_name((tp, conversion)), checker_cls.__name__)
             try:
                 res = inner(tp, conversion, default_conversion, checker_cls)
@@ -249,6 +257,22 @@ class Installed:
 
                 cls.__post_init__ = post
                 self.rec_patches.append((cls, orig_post))
+            # ... and around the compilation of every object type (first use of a class by a visitor)
+            import apischema.deserialization as DV
+            import apischema.serialization as SV
+
+            self.obj_patches = []
+            for vis in (DV.DeserializationMethodVisitor, SV.SerializationMethodVisitor):
+                orig_obj = vis.object
+
+                def obj(self_, tp, fields, _orig=orig_obj):
+                    time.sleep(0.0005)
+                    res = _orig(self_, tp, fields)
+                    time.sleep(0.0005)
+                    return res
+
+                vis.object = obj
+                self.obj_patches.append((vis, orig_obj))
         return self
 
     def __exit__(self, *exc):
@@ -256,6 +280,8 @@ class Installed:
 
         for cls, orig_post in self.rec_patches:
             cls.__post_init__ = orig_post
+        for vis, orig_obj in getattr(self, "obj_patches", []):
+            vis.object = orig_obj
         for k, v in self.saved.items():
             setattr(self.R, k, v)
         if self.cached_fn in apischema.cache._cached:
